@@ -231,3 +231,23 @@ def self_check() -> List[str]:
     if close(squeeze(60, 0.3 * np.exp(0.4j))[:, 0][:8], squeezed_vacuum_amplitudes(0.3 * np.exp(0.4j), 60)[:8]) > 1e-9:
         errs.append("squeezing of the vacuum is not the squeezed vacuum")
     return errs
+
+
+def su2_beamsplitter(d1: int, d2: int, eta: float) -> np.ndarray:
+    """The beam splitter exp(i eta (a^dagger b + a b^dagger)) as the SU(2) mode transformation
+    a^dagger -> cos(eta) a^dagger + i sin(eta) b^dagger, b^dagger -> i sin(eta) a^dagger + cos(eta) b^dagger, computed by
+    polynomial expansion of (a^dagger)^m (b^dagger)^n |0,0> (independent of the matrix exponential).  Entries whose output
+    leaves the truncated space are dropped (exact on inputs with m + n < min(d1, d2))."""
+    from math import comb, factorial, sqrt
+    U = np.zeros((d1 * d2, d1 * d2), dtype=complex)
+    c, s = math.cos(eta), 1j * math.sin(eta)
+    for m in range(d1):
+        for n in range(d2):
+            pref = 1 / sqrt(factorial(m) * factorial(n))
+            for k in range(m + 1):          # (c a + s b)^m : choose k times a
+                for l in range(n + 1):      # (s a + c b)^n : choose l times a
+                    pa, pb = k + l, (m - k) + (n - l)
+                    if pa < d1 and pb < d2:
+                        amp = comb(m, k) * c ** k * s ** (m - k) * comb(n, l) * s ** l * c ** (n - l)
+                        U[pa * d2 + pb, m * d2 + n] += pref * amp * sqrt(factorial(pa) * factorial(pb))
+    return U
